@@ -171,19 +171,20 @@ class Run:
         crate = os.path.join(out, 'kani-crate')
         cmd = ['cargo', 'kani', '--only-codegen'] + KANI_FLAGS
         pruned = {}
-        for attempt in range(8):
+        for attempt in range(12):
             rc, o, wall, rss, to = run_cmd(cmd, crate, 1800)
             open(os.path.join(out, 'build.log'), 'a').write(o)
             if rc == 0 and not to:
                 break
             located = re.findall(r'error(?:\[E\d+\])?: ([^\n]*)\n(?:[^\n]*\n){0,3}?\s*--> src/(verif_\w+\.rs|vspec\.rs):(\d+):\d+', o)
             progress = False
-            for msg, fn, line in located:
+            # bottom-up per file, so that pruning one function does not shift the line numbers of the others
+            for msg, fn, line in sorted(set(located), key=lambda x: (x[1], -int(x[2]))):
                 if fn == 'vspec.rs':
                     continue
                 name = self._prune_fn(os.path.join(crate, 'src', fn), int(line))
                 if name:
-                    pruned[name] = msg
+                    pruned.setdefault(name, msg)
                     progress = True
             if not progress:
                 errs = re.findall(r'^error[^\n]*(?:\n[^\n]*){0,6}', o, re.M)
